@@ -71,6 +71,12 @@ EDITS = {
         ("cl03", RT + "vm.rs", "        for &heap_idx in local_heap_closures {", "        for &heap_idx in local_heap_closures.iter().skip(1) {", "verus", "closures"),
         ("cl04", RT + "vm.rs", "            if !cls.is_closed {\n                // log::debug!(\"release {:?}\", clsidx);", "            if cls.is_closed {\n                // log::debug!(\"release {:?}\", clsidx);", "verus", "closures"),
         ("cl05", RT + "vm.rs", "heap::HeapObject::with_data(vec![Self::to_value(closure_idx)]);", "heap::HeapObject::with_data(vec![0, Self::to_value(closure_idx)]);", "verus", "closures"),
+        ("ca01", RT + "vm.rs", "                        heap::heap_retain(&mut self.heap, heap_idx);\n                        if let Some(closure) = self.closures.get_mut(closure_idx.0) {\n                            closure.refcount += 1;\n                        }", "                        heap::heap_retain(&mut self.heap, heap_idx);", "verus", "closures"),
+        ("ca02", RT + "vm.rs", "                    let heap_idx = Self::get_as::<heap::HeapIdx>(heap_addr);\n                    heap::heap_retain(&mut self.heap, heap_idx);\n                }\n                Instruction::BoxRelease", "                    let heap_idx = Self::get_as::<heap::HeapIdx>(heap_addr);\n                    heap::heap_retain(&mut self.heap, heap_idx);\n                    heap::heap_retain(&mut self.heap, heap_idx);\n                }\n                Instruction::BoxRelease", "verus", "closures"),
+        ("ca03", RT + "vm.rs", "                    let heap_idx = Self::get_as::<heap::HeapIdx>(heap_addr);\n                    heap::heap_release(&mut self.heap, heap_idx);\n                }\n                Instruction::BoxStore", "                    let heap_idx = Self::get_as::<heap::HeapIdx>(heap_addr);\n                    heap::heap_retain(&mut self.heap, heap_idx);\n                }\n                Instruction::BoxStore", "verus", "closures"),
+        ("ca04", RT + "vm.rs", "                    local_heap_closures.push(heap_idx);\n", "", "verus", "closures"),
+        ("ca05", RT + "vm.rs", "                    local_closures.push(vaddr);\n", "", "verus", "closures"),
+        ("ca06", RT + "vm.rs", "                    } else if let Some(closure_idx) = self.try_get_direct_closure(heap_addr) {\n                        if let Some(closure) = self.closures.get_mut(closure_idx.0) {\n                            closure.refcount += 1;", "                    } else if let Some(closure_idx) = self.try_get_direct_closure(heap_addr) {\n                        if let Some(closure) = self.closures.get_mut(closure_idx.0) {\n                            closure.refcount += 2;", "verus", "closures"),
         ("hp06", RT + "vm/heap.rs", "        obj.refcount == 0\n    } else {", "        obj.refcount <= 1\n    } else {", "both", "heap"),
     ],
     "C11": [
